@@ -185,6 +185,13 @@ func (c *Ctx) serverModel() *serverModel {
 		c.R.Fatal("serveRequests: readRequest is not inside a loop")
 		return nil
 	}
+	nick[m.connFn] = "(*Server).Run:connGoroutine"
+	if m.teardown != m.connFn {
+		nick[m.teardown] = "(*Server).Run:connTeardown"
+	}
+	if m.reqFn != nil {
+		nick[m.reqFn] = "(*conn).serveRequests:requestGoroutine"
+	}
 	c.R.Analysed = append(c.R.Analysed, fname(m.connFn), fname(m.teardown))
 	if m.reqFn != nil {
 		c.R.Analysed = append(c.R.Analysed, fname(m.reqFn))
